@@ -27,14 +27,23 @@ class BatchMultiplyG:
 
 @contract(f"{D}::_MapIssuerSigIndexes")
 class MapIssuerSigIndexes:
+  """Proved against the body (defaultdict(list) modelled as the ghost relation pm_has): an index is listed under a point
+  only if it is a valid index whose signature has that issuer point, and EVERY index is listed under its own point."""
   frame_props = ["C02", "C17"]
   params = {"sigs": "list[ref:ECDSASignature]"}
   returns = "ref:PointMap"
-  assumed = True
-  assumed_why = "defaultdict(list) keyed by point tuples: outside the symbolic dict model; bounded tier bounded/c02.py"
-  # an index is listed under a point only if it is a valid index and that signature's issuer point is this point
-  ensures = ["forall((i, px, py), pm_has(result, px, py, i), 0 <= i and i < len(sigs) and "
-             "bval(sigs[i].issuer_key_info.x) == px and bval(sigs[i].issuer_key_info.y) == py)"]
+  point_maps = True
+  ensures = [("C02,C17", "forall((i, px, py), pm_has(result, px, py, i), 0 <= i and i < len(sigs) and "
+                         "bval(sigs[i].issuer_key_info.x) == px and bval(sigs[i].issuer_key_info.y) == py)"),
+             ("C17", "forall(i, 0, len(sigs), pm_has(result, bval(sigs[i].issuer_key_info.x), "
+                     "bval(sigs[i].issuer_key_info.y), i))")]
+  caller_ensures = ["forall((i, px, py), pm_has(result, px, py, i), 0 <= i and i < len(sigs) and "
+                    "bval(sigs[i].issuer_key_info.x) == px and bval(sigs[i].issuer_key_info.y) == py)"]
+  loops = {0: dict(invariant=[("C02,C17", "forall((k, px, py), pm_has(pks, px, py, k), 0 <= k and k < i and "
+                                          "bval(sigs[k].issuer_key_info.x) == px and bval(sigs[k].issuer_key_info.y) == py)"),
+                              ("C17", "forall(k, 0, i, pm_has(pks, bval(sigs[k].issuer_key_info.x), "
+                                      "bval(sigs[k].issuer_key_info.y), k))")])}
+  props = ["C02", "C17"]
 
 
 @contract(f"{D}::_IssuerDLogs")
